@@ -1,10 +1,10 @@
 package vlib
 
 import (
-	"github.com/sdcio/data-server/pkg/datastore/target"
 	"context"
 	"encoding/json"
 	"fmt"
+	"github.com/sdcio/data-server/pkg/datastore/target"
 	"os"
 	"sort"
 	"strconv"
@@ -258,7 +258,7 @@ type HistCase struct {
 	GNMI string `json:"gnmi,omitempty"`
 	// Loop (with GNMI): closed loop - the real gnmiTarget also runs its on-change sync against the gNMI device, the
 	// running store is what the real sync loop makes of the device's reports
-	Loop bool `json:"loop,omitempty"`
+	Loop     bool      `json:"loop,omitempty"`
 	Universe string    `json:"universe"`
 	Palette  []string  `json:"palette"`
 	Initial  []LeafSel `json:"initial,omitempty"`
@@ -969,16 +969,16 @@ func BuildIntentRequest(ri ResolvedIntent) (*sdcpb.TransactionIntent, error) {
 type HistEnv struct {
 	// NextTxID: the id of the next submitted transaction (consumed by it); "" = tx<n>
 	NextTxID string
-	Env     *Env
-	Ctx     context.Context
-	DS      *datastore.Datastore
-	DSName  string
-	Dev     *Device
-	Model   *Model
-	Uni     *Universe
-	Palette []string
-	txn     int
-	Timeout time.Duration
+	Env      *Env
+	Ctx      context.Context
+	DS       *datastore.Datastore
+	DSName   string
+	Dev      *Device
+	Model    *Model
+	Uni      *Universe
+	Palette  []string
+	txn      int
+	Timeout  time.Duration
 }
 
 type HistEnvOpts struct {
